@@ -1284,8 +1284,12 @@ func (r *Raft) election() {
 // sendRequestVoteToPeers sends a RequestVoteRPC to all nodes in the cluster,
 // excluding those that are non-voters.
 func (r *Raft) sendRequestVoteToPeers() {
-	// Handle the single node cluster case.
+	// Handle the single node cluster case. No votes are needed, but every
+	// leadership must still have a term of its own.
 	if r.isSingleServerCluster() {
+		if r.state != Candidate {
+			r.becomeCandidate()
+		}
 		r.becomeLeader()
 		return
 	}
